@@ -1,19 +1,30 @@
 """C19 — exported source code denotes the same expression as the program.
 
-translator (clang AST of every display() -> Vita/C19/GenTemplates.lean) + Lean proofs over the
-extracted table (Vita/C19/Props.lean) + correspondence on generated programs x four formats:
+translators (clang AST of every display() -> Vita/C19/GenTemplates.lean; of the print-format enums,
+the out:: manipulators, operator<<(i_mep) and operator<<(team) -> Vita/C19/GenExport.lean) + Lean
+proofs over the extracted tables (Vita/C19/Props.lean) + correspondence on generated GENOMES x four
+formats (a program is handed to vita as the matrix genome_(row, category): several active genes per
+row, one gene referenced from several parents / argument positions, chains, inactive loci filled with
+random valid genes, equal symbols shared between genes):
 
-  * the text printed by the real `out::X_language << i_mep` equals the Lean model of
-    language() (sequential replace_all, outer parentheses stripped);
+  * the text printed by the real `out::X_language << i_mep` equals the Lean model of language()
+    reading genes by LOCUS (sequential replace_all, outer parentheses stripped); the model's own
+    unfolding of the genome equals the generator's tree; is_valid() = wfRows;
   * the Lean executable parser applied to vita's text returns the program's tree (every
     function node = its template's tree with each hole replaced by the complete argument tree);
   * independent oracles (no Lean involved): the text equals a Python simultaneous substitution
     into the *compiled* display() strings; clang's AST of the C / C++ text equals clang's AST of
     the fully parenthesised substitution (ParenExpr removed); Python's `ast` likewise;
     gcc compiles the C text (batched) and the compiled expression returns, bit for bit, what
-    `vita::run` returns on every input vector (programs whose constants print exactly).
+    `vita::run` returns on every input vector (programs whose constants print exactly);
+  * teams: `out::X_language << team<i_mep>` = the members' texts, one per line (Python and the
+    extracted team loop run by the model);
+  * stream histories: after any sequence of manipulators / prints / fresh streams a print shows the
+    format of the last format manipulator (Python last-wins oracle) and the flag / callee the Lean
+    stream model predicts.
 """
 import ast as pyast
+from fractions import Fraction
 import concurrent.futures as cf
 import json
 import math
@@ -21,6 +32,7 @@ import os
 import re
 import struct
 import sys
+import time
 
 from vlib import common as C
 
@@ -120,6 +132,7 @@ class Gen:
     def __init__(self, rng, syms, exact):
         self.rng, self.syms, self.exact = rng, syms, exact
         self.funcs = [s for s in syms.values() if s.kind == "F"]
+        self._prod, self._prodw = {}, {}
 
     # -- terminals --------------------------------------------------------------------------
     def real_value(self, sign=None):
@@ -181,6 +194,20 @@ class Gen:
     # -- functions --------------------------------------------------------------------------
     def producers(self, dom):
         """[(sym, d0, d1)] of functions whose result domain can be `dom`"""
+        if dom not in self._prod:
+            self._prod[dom] = self._producers(dom)
+        return self._prod[dom]
+
+    def producers_within(self, dom, doms):
+        """the producers of `dom` whose categories all belong to `doms`"""
+        key = (dom, frozenset(doms))
+        if key not in self._prodw:
+            ds = key[1]
+            self._prodw[key] = [(s, d0, d1) for (s, d0, d1) in self.producers(dom)
+                                if d0 in ds and d1 in ds and all(d in ds for d in self.arg_doms(s, d0, d1))]
+        return self._prodw[key]
+
+    def _producers(self, dom):
         out = []
         for s in self.funcs:
             for d0 in sorted(set(dom0_of(s.key))):
@@ -231,6 +258,252 @@ def result_dom(syms, t):
 
 
 # ---------------------------------------------------------------------------------------------
+# genomes: a program is handed to vita as the matrix genome_(row, category) of an i_mep
+# ---------------------------------------------------------------------------------------------
+
+class TooBig(Exception):
+    pass
+
+
+class Genome:
+    """n rows x len(doms) categories; doms[c] = domain of category c (doms[0] = domain of the best
+       locus [0,0]); cells[(r, c)] = ('T', kind, payload, dom) | ('F', key, (d0, d1), [arg rows])"""
+
+    def __init__(self, n, doms, cells):
+        self.n, self.doms, self.cells = n, list(doms), cells
+
+    def to_json(self):
+        return {"n": self.n, "doms": self.doms,
+                "cells": [[r, c, list_gene(g)] for (r, c), g in sorted(self.cells.items())]}
+
+    @staticmethod
+    def from_json(o):
+        return Genome(o["n"], o["doms"], {(r, c): tuple_gene(g) for r, c, g in o["cells"]})
+
+
+def list_gene(g):
+    if g[0] == "T":
+        return ["T", g[1], list(g[2]) if isinstance(g[2], tuple) else g[2], g[3]]
+    return ["F", g[1], list(g[2]), list(g[3])]
+
+
+def tuple_gene(g):
+    if g[0] == "T":
+        return ("T", g[1], tuple(g[2]) if isinstance(g[2], list) else g[2], g[3])
+    return ("F", g[1], tuple(g[2]), list(g[3]))
+
+
+def arg_loci(gen, G, g):
+    """g.locus_of_argument(i): (args[i], arg_category(i))"""
+    cm = {d: i for i, d in enumerate(G.doms)}
+    s = gen.syms[g[1]]
+    return [(a, cm[d]) for a, d in zip(g[3], gen.arg_doms(s, g[2][0], g[2][1]))]
+
+
+def unfold(gen, G, r=0, c=0, budget=None):
+    """the program as a tree, unfolded from locus [r,c] (the generator's own unfolding: the oracles
+       work on this tree; the Lean model unfolds the genome itself and the two are compared)"""
+    count = [0]
+
+    def go(r, c):
+        count[0] += 1
+        if budget is not None and count[0] > budget:
+            raise TooBig()
+        g = G.cells[(r, c)]
+        if g[0] == "T":
+            return g
+        return ("F", g[1], g[2], [go(a, ac) for a, ac in arg_loci(gen, G, g)])
+
+    return go(r, c)
+
+
+def genome_stats(gen, G):
+    """active loci, references per locus, rows holding several active genes"""
+    refs, order, stack = {(0, 0): 0}, [], [(0, 0)]
+    while stack:
+        l = stack.pop()
+        order.append(l)
+        g = G.cells[l]
+        if g[0] == "F":
+            for al in arg_loci(gen, G, g):
+                if al not in refs:
+                    refs[al] = 0
+                    stack.append(al)
+                refs[al] += 1
+    rows = {}
+    for (r, c) in refs:
+        rows.setdefault(r, set()).add(c)
+    # a locus referenced from two argument positions of ONE gene
+    twice = 0
+    for l in refs:
+        g = G.cells[l]
+        if g[0] == "F":
+            al = arg_loci(gen, G, g)
+            if len(set(al)) < len(al):
+                twice += 1
+    return {"active": len(refs), "shared_rows": sum(1 for v in rows.values() if len(v) > 1),
+            "max_in_row": max(len(v) for v in rows.values()),
+            "shared_genes": sum(1 for v in refs.values() if v > 1), "max_refs": max(list(refs.values()) + [1]),
+            "same_gene_twice_in_one_parent": twice}
+
+
+def junk_gene(gen, rng, doms, dom, r, n):
+    """an inactive gene of domain `dom` for row r of an n-row genome (valid: arguments in later rows)"""
+    if r < n - 1 and rng.chance(0.55):
+        ps = gen.producers_within(dom, doms)
+        if ps:
+            s, d0, d1 = rng.choice(ps)
+            return ("F", s.key, (d0, d1), [rng.between(r + 1, n) for _ in range(s.arity)])
+    return gen.terminal(dom)
+
+
+def used_doms(syms, t, acc=None):
+    acc = set() if acc is None else acc
+    acc.add(result_dom(syms, t))
+    if t[0] == "F":
+        acc.add(t[2][0])
+        acc.add(t[2][1])
+        for k in t[3]:
+            used_doms(syms, k, acc)
+    return acc
+
+
+LAYOUT_MODES = ["chain", "packed", "packed", "spread"]
+SHARE_MODES = ["none", "all", "all", "some"]
+
+
+def layout(gen, rng, t, mode=None, share=None):
+    """place the program `t` into a genome.
+       mode : chain  = one active gene per row (what i_mep(vector<gene>) builds)
+              packed = every gene in the first free locus below its parents: genes of different
+                       categories share rows
+              spread = packed with random gaps
+       share: none = every occurrence of a sub-expression gets its own gene
+              all  = equal sub-expressions (same category) are ONE gene referenced from every parent
+                     and argument position (the genome is a DAG)
+              some = coin per occurrence
+       inactive loci are filled with valid random genes"""
+    syms = gen.syms
+    mode = mode or rng.choice(LAYOUT_MODES)
+    share = share or rng.choice(SHARE_MODES)
+    root_dom = result_dom(syms, t)
+    others = sorted(used_doms(syms, t) - {root_dom})
+    for i in range(len(others) - 1, 0, -1):          # Fisher-Yates
+        j = rng.below(i + 1)
+        others[i], others[j] = others[j], others[i]
+    doms = [root_dom] + others
+    if len(doms) < 4 and rng.chance(0.15):
+        doms.append(rng.choice([d for d in DOMS if d not in doms]))   # a category no active gene uses
+    cm = {d: i for i, d in enumerate(doms)}
+
+    nodes, memo = [], {}          # node = [gene-without-rows, dom, kid ids]
+
+    def build(n):
+        dom = result_dom(syms, n)
+        if n[0] == "T":
+            key, kids = n, []
+        else:
+            kids = [build(k) for k in n[3]]
+            key = ("F", n[1], n[2], tuple(kids))
+        if key in memo and share != "none" and (share == "all" or rng.chance(0.5)):
+            return memo[key]
+        nodes.append([n, dom, kids])
+        memo[key] = len(nodes) - 1
+        return len(nodes) - 1
+
+    root = build(t)
+    level = [0] * len(nodes)
+    parents = [[] for _ in nodes]
+    for i in range(len(nodes) - 1, -1, -1):          # a parent has a larger id than its kids
+        for k in nodes[i][2]:
+            level[k] = max(level[k], level[i] + 1)
+            parents[k].append(i)
+    order = sorted(range(len(nodes)), key=lambda i: (level[i], rng.next()))
+    row, taken, nextrow = {}, set(), 0
+    for i in order:
+        r = 0 if i == root else 1 + max(row[p] for p in parents[i])
+        c = cm[nodes[i][1]]
+        if mode == "chain":
+            r = max(r, nextrow)
+        else:
+            if mode == "spread" and i != root:
+                r += rng.below(3)
+            while (r, c) in taken:
+                r += 1
+        row[i] = r
+        taken.add((r, c))
+        nextrow = max(nextrow, r + 1)
+    n = nextrow + rng.below(3)
+    cells = {}
+    for i, (nd, dom, kids) in enumerate(nodes):
+        cells[(row[i], cm[dom])] = nd if nd[0] == "T" else ("F", nd[1], nd[2], [row[k] for k in kids])
+    for r in range(n):
+        for c, d in enumerate(doms):
+            if (r, c) not in cells:
+                cells[(r, c)] = junk_gene(gen, rng, doms, d, r, n)
+    G = Genome(n, doms, cells)
+    return G, mode, share
+
+
+def random_genome(gen, rng, n, doms, pfun=0.7):
+    """a genome filled the way vita fills one: every locus a random gene of its category, functions
+       point to later rows, the last row holds terminals"""
+    cells = {}
+    for r in range(n):
+        for c, d in enumerate(doms):
+            g = None
+            if r < n - 1 and (r == 0 and c == 0 or rng.chance(pfun)):
+                ps = gen.producers_within(d, doms)
+                if ps:
+                    s, d0, d1 = rng.choice(ps)
+                    g = ("F", s.key, (d0, d1), [rng.between(r + 1, n) for _ in range(s.arity)])
+            cells[(r, c)] = g or gen.terminal(d)
+    return Genome(n, doms, cells)
+
+
+def show_genome(gen, G):
+    """the active genes, in the style of vita's out::list"""
+    act, stack = set(), [(0, 0)]
+    while stack:
+        l = stack.pop()
+        if l in act:
+            continue
+        act.add(l)
+        if G.cells[l][0] == "F":
+            stack += arg_loci(gen, G, G.cells[l])
+    out = []
+    for l in sorted(act):
+        g = G.cells[l]
+        if g[0] == "T":
+            out.append("[%d,%d] %s" % (l[0], l[1], show(g)))
+        else:
+            out.append("[%d,%d] %s %s" % (l[0], l[1], g[1], " ".join("[%d,%d]" % al for al in arg_loci(gen, G, g))))
+    return "; ".join(out)
+
+
+STREAM_KINDS = ["list", "dump", "inline", "tree", "graphviz"]
+STREAM_REF = " ".join("%s print" % k for k in STREAM_KINDS) + " long " + " ".join("%s print" % k for k in STREAM_KINDS)
+STREAM_TOKENS = ["c", "cpp", "mql", "py"] * 3 + STREAM_KINDS + ["long", "short", "print", "print", "print", "fresh"] + \
+                ["pf%d" % i for i in range(9)]
+
+
+def stream_ops(rng):
+    ops = [rng.choice(STREAM_TOKENS) for _ in range(rng.between(2, 14))]
+    return ops + ["print"]
+
+
+def term_kind_of(t):
+    """the terminal kind (as in Gen.term_kinds) of a terminal node"""
+    k = t[1]
+    if k == "var":
+        return "var"
+    sg = "-" if neg_term(t) else "+"
+    return {"real::real": "real" + sg, "real::integer": "rint" + sg, "const:d": "cd" + sg,
+            "integer::number": "num" + sg, "const:i": "ci" + sg, "const:s": "cs",
+            "boolean::zero": "zero", "boolean::one": "one"}[k]
+
+
+# ---------------------------------------------------------------------------------------------
 # encodings for the harness and the driver
 # ---------------------------------------------------------------------------------------------
 
@@ -259,24 +532,18 @@ def term_bits(t):
     return 0
 
 
-def harness_line(syms, t, inputs):
-    cm = cat_map(result_dom(syms, t))
-    genes = []
+def harness_gene(syms, cm, g):
+    if g[0] == "T":
+        return "%s %d %d 0" % (term_key(g), cm[g[3]], term_bits(g))
+    s = syms[g[1]]
+    cats = [cm[g[2][0]]] + ([cm[g[2][1]]] if s.ncats == 2 else [])
+    return "%s %s 0 %d %s" % (g[1], ",".join(map(str, cats)), len(g[3]), " ".join(map(str, g[3])))
 
-    def walk(n):
-        idx = len(genes)
-        genes.append(None)
-        if n[0] == "T":
-            genes[idx] = "%s %d %d 0" % (term_key(n), cm[n[3]], term_bits(n))
-        else:
-            s = syms[n[1]]
-            cats = [cm[n[2][0]]] + ([cm[n[2][1]]] if s.ncats == 2 else [])
-            ks = [walk(k) for k in n[3]]
-            genes[idx] = "%s %s 0 %d %s" % (n[1], ",".join(map(str, cats)), len(ks), " ".join(map(str, ks)))
-        return idx
 
-    walk(t)
-    line = "prog %d %s %d" % (len(genes), " ".join(genes), len(inputs))
+def harness_line(syms, G, inputs):
+    cm = {d: i for i, d in enumerate(G.doms)}
+    genes = [harness_gene(syms, cm, G.cells[(r, c)]) for r in range(G.n) for c in range(len(G.doms))]
+    line = "genome %d %d %s %d" % (G.n, len(G.doms), " ".join(genes), len(inputs))
     for ex in inputs:
         line += " %d %s" % (len(ex), " ".join(ex))
     return line
@@ -293,6 +560,19 @@ def driver_tree(t, fidx, tidx):
         text = t[2][0] if k == "var" else (t[2] if k == "const:s" else "")
         return "T %d %s %d" % (tidx[TERM_MODEL_KEY[k]], hx(text), term_bits(t))
     return "F %d %d %s" % (fidx[t[1]], len(t[3]), " ".join(driver_tree(k, fidx, tidx) for k in t[3]))
+
+
+def driver_genome(gen, G, fidx, tidx):
+    out = ["%d %d" % (G.n, len(G.doms))]
+    for r in range(G.n):
+        for c in range(len(G.doms)):
+            g = G.cells[(r, c)]
+            if g[0] == "T":
+                out.append(driver_tree(g, fidx, tidx))
+            else:
+                al = arg_loci(gen, G, g)
+                out.append("F %d %d %s" % (fidx[g[1]], len(al), " ".join("%d %d" % (ac, a) for a, ac in al)))
+    return " ".join(out)
 
 
 # ---------------------------------------------------------------------------------------------
@@ -332,7 +612,11 @@ def oracle_text(syms, t, f, paren, top=True, terms=None, override=None):
         if top and not paren and len(out) > 2 and out[0] == "(" and out[-1] == ")":
             out = out[1:-1]
         return out
-    tpl = override[t[1]] if override and t[1] in override else syms[t[1]].tpl[f]
+    tpl = None
+    if override and t[1] in override:
+        tpl = override[t[1]](t) if callable(override[t[1]]) else override[t[1]]
+    if tpl is None:
+        tpl = syms[t[1]].tpl[f]
     ks = [oracle_text(syms, k, f, paren, False, terms, override) for k in t[3]]
 
     def rep(m):
@@ -343,6 +627,20 @@ def oracle_text(syms, t, f, paren, top=True, terms=None, override=None):
 
     out = MARK.sub(rep, tpl)
     if top and not paren and len(out) > 2 and out[0] == "(" and out[-1] == ")":
+        out = out[1:-1]
+    return out
+
+
+def oracle_text_seq(syms, t, f, top=True):
+    """the algorithm of language() itself, independently of Lean: display(), then for i = 1..arity
+       replace_all("%%i%%", text of argument i) one after the other; outer parentheses stripped"""
+    if t[0] == "T":
+        out = term_text(t, f)
+    else:
+        out = syms[t[1]].tpl[f]
+        for i, k in enumerate(t[3]):
+            out = out.replace("%%" + str(i + 1) + "%%", oracle_text_seq(syms, k, f, False))
+    if top and len(out) > 2 and out[0] == "(" and out[-1] == ")":
         out = out[1:-1]
     return out
 
@@ -480,11 +778,18 @@ def compile_and_run(tag, progs, inputs_of):
                 errors[order[culprit]] = "the compiled expression died with signal %d" % (-rc2)
                 start = culprit + 1
             return vals, errors
-        badl = {}
-        for m in re.finditer(r"%s:(\d+):\d+: error: ([^\n]*)" % re.escape(src), se):
+        badl, pending = {}, None
+        for m in re.finditer(r"%s:(\d+):\d+: (error|note): ([^\n]*)" % re.escape(src), se):
             ln = int(m.group(1))
-            if ln in line_of:
-                badl.setdefault(line_of[ln], m.group(2))
+            if m.group(2) == "error":
+                pending = None
+                if ln in line_of:
+                    badl.setdefault(line_of[ln], m.group(3))
+                else:
+                    pending = m.group(3)       # inside a helper macro of the prelude: the use follows as a note
+            elif pending is not None and ln in line_of and "in expansion of macro" in m.group(3):
+                badl.setdefault(line_of[ln], pending)
+                pending = None
         if not badl:
             for pid, _, _ in live:
                 errors[pid] = "gcc failed, no attributable line: " + se[-300:]
@@ -512,7 +817,8 @@ def clang_trees(tag, lang, progs):
             else:
                 f.write("static auto vc19_%d(%s) { return %s ; }\n" % (pid, PARAMS, text.replace("\n", " ")))
     cmd = (["clang-14", "-std=gnu11"] if lang == "c" else ["clang++-14", "-std=c++17"]) + \
-          ["-w", "-fsyntax-only", "-ferror-limit=0", "-Xclang", "-ast-dump", "-Xclang", "-ast-dump-filter=vc19_", src]
+          ["-w", "-fsyntax-only", "-ferror-limit=0", "-fbracket-depth=2048", "-Xclang", "-ast-dump", "-Xclang",
+           "-ast-dump-filter=vc19_", src]
     rc, so, se = sh_retry(cmd, 1200)
     out, cur, rows = {}, None, []
 
@@ -641,6 +947,12 @@ def show(t):
 def run(chk, replay=None):
     rng = C.SplitMix(chk.seed)
     quick = chk.tier == "quick"
+    phases, t_last = {}, [time.time()]
+
+    def phase(name):
+        now = time.time()
+        phases[name] = round(phases.get(name, 0) + now - t_last[0], 1)
+        t_last[0] = now
     gen_path = os.path.join(C.LEAN, "Vita", "C19", "GenTemplates.lean")
     broken = []
     table_ok = False
@@ -652,6 +964,14 @@ def run(chk, replay=None):
         table_ok = True
     except Refuse as e:
         broken.append("translator tools/translate_templates.py refuses the current sources: %s" % e)
+    export = None
+    try:
+        export, changed2 = translate_templates.emit_export(os.path.join(C.LEAN, "Vita", "C19", "GenExport.lean"))
+        chk.cov["translated_manipulators"] = len(export["manipulators"])
+        chk.cov["gen_export_changed_vs_committed"] = bool(changed2)
+    except Refuse as e:
+        broken.append("translator tools/translate_templates.py refuses the print-format machinery "
+                      "(individual.cc / i_mep.cc / team.tcc): %s" % e)
 
     drv_ok = False
     if table_ok:
@@ -663,6 +983,7 @@ def run(chk, replay=None):
         if not ok:
             broken.append("theorems of Vita.C19.Props no longer check over the extracted table: " + msg)
 
+    phase("translate+lake+audit")
     exe = C.build_harness("c19_lang", "asan")
     rc, so, se = C.run_harness(exe, inp="syms\n")
     if rc != 0 or not so.strip():
@@ -701,12 +1022,16 @@ def run(chk, replay=None):
                 broken.append("terminal class %s missing from the extracted table" % k)
                 drv_ok = False
 
+    phase("build vita+harness")
     # ---- programs ----------------------------------------------------------------------------
     g_exact = Gen(rng, syms, True)
     g_any = Gen(rng, syms, False)
     programs = []          # (tree, origin)
+    genomes = {}           # pid -> (Genome, layout mode, share mode)
 
-    def add(t, origin):
+    def add(t, origin, G=None):
+        if G is not None:
+            genomes[len(programs)] = G
         programs.append((t, origin))
 
     # corpus (regressions) first
@@ -717,12 +1042,29 @@ def run(chk, replay=None):
             if fn.endswith(".json"):
                 for item in json.load(open(os.path.join(cdir, fn))):
                     corpus.append(tuple_tree(item["tree"]))
+    forced_team, forced_stream = 0, None
     if replay:
         r = json.load(open(replay))
-        corpus = [tuple_tree(r["replay"]["tree"])] if "tree" in r.get("replay", {}) else corpus
+        rp = r.get("replay", {})
+        if "team_members" in rp:
+            corpus = []
+            for m in rp["team_members"]:
+                add(tuple_tree(m["tree"]), "corpus", (Genome.from_json(m["genome"]), m.get("layout", "?"), m.get("share", "?")))
+            forced_team = len(rp["team_members"])
+        elif "tree" in rp:
+            corpus = []
+            add(tuple_tree(rp["tree"]), "corpus",
+                (Genome.from_json(rp["genome"]), rp.get("layout", "?"), rp.get("share", "?")) if "genome" in rp else None)
+            forced_stream = rp.get("stream_ops")
     for t in corpus:
         add(t, "corpus")
+    for fn in (sorted(os.listdir(cdir)) if os.path.isdir(cdir) and not replay else []):
+        if fn.endswith(".genomes"):
+            for item in json.load(open(os.path.join(cdir, fn))):
+                add(tuple_tree(item["tree"]), "corpus",
+                    (Genome.from_json(item["genome"]), item.get("layout", "?"), item.get("share", "?")))
 
+    possible_triples = set()
     if not replay:
         # every parent / argument position / child symbol
         child_kinds = {d: [("T", k) for k in g_exact.term_kinds(d)] + [("F", p) for p in g_exact.producers(d)]
@@ -733,6 +1075,7 @@ def run(chk, replay=None):
                     doms = g_exact.arg_doms(s, d0, d1)
                     for pos, d in enumerate(doms):
                         for ck in child_kinds[d]:
+                            possible_triples.add((s.key, d0 + d1, pos, ck[1] if ck[0] == "T" else ck[1][0].key))
                             g = g_exact if rng.chance(0.8) else g_any
                             if ck[0] == "T":
                                 child = g.terminal(d, ck[1])
@@ -749,7 +1092,7 @@ def run(chk, replay=None):
                                 q, q0, q1 = rng.choice(gps)
                                 qpos = rng.choice([i for i, x in enumerate(g.arg_doms(q, q0, q1)) if x == rd])
                                 add(g.apply(q, q0, q1, {qpos: node}), "pair-nested")
-        nrand = 1200 if quick else 25000
+        nrand = 1200 if quick else 20000
         for i in range(nrand):
             g = g_exact if i % 2 == 0 else g_any
             add(g.tree(rng.choice(["R", "R", "R", "S", "I", "B"]), rng.between(2, 6), 0.8), "random")
@@ -787,18 +1130,109 @@ def run(chk, replay=None):
             add(("F", "str::ife", ("S", "R"), [a, b, ("T", "real::real", dbits(1.0), "R"),
                                                ("T", "real::real", dbits(2.0), "R")]), "sife-strings")
 
+        # genomes filled the way vita fills them (every locus a random gene of its category): the
+        # program is a DAG – one gene is the argument of several parents / of several positions of one
+        # parent – and several genes of a row are active
+        for i in range(500 if quick else 6000):
+            g = g_exact if i % 2 == 0 else g_any
+            nd = rng.between(1, 5)
+            doms = [rng.choice(["R", "R", "S", "I", "B"])]
+            while len(doms) < nd:
+                d = rng.choice(DOMS)
+                if d not in doms:
+                    doms.append(d)
+            for attempt in range(8):
+                G = random_genome(g, rng, rng.between(3, 9 - attempt // 2), doms, 0.75)
+                try:
+                    t = unfold(g, G, budget=150)
+                except TooBig:
+                    continue
+                if t[0] == "F":
+                    add(t, "random-genome", (G, "random-genome", "dag"))
+                    break
+        # long chains (deep programs: the recursion of language() goes through many rows)
+        for i in range(40 if quick else 400):
+            g = g_exact if i % 2 == 0 else g_any
+            d = rng.choice(DOMS)
+            t = g.terminal(d)
+            for _ in range(rng.between(15, 41)):
+                gps = [(q, q0, q1) for dd in DOMS for (q, q0, q1) in g.producers(dd) if d in g.arg_doms(q, q0, q1)]
+                q, q0, q1 = rng.choice(gps)
+                qpos = rng.choice([j for j, x in enumerate(g.arg_doms(q, q0, q1)) if x == d])
+                fixed = {qpos: t}
+                for j, x in enumerate(g.arg_doms(q, q0, q1)):    # short siblings: the text stays linear
+                    if j != qpos:
+                        fixed[j] = t if (x == d and rng.chance(0.08) and node_count(t) < 40) else g.terminal(x)
+                t = ("F", q.key, (q0, q1), [fixed[j] for j in range(q.arity)])
+                d = result_dom(syms, t)
+            if node_count(t) < 400:
+                add(t, "chain")
+        # the same program in other layouts (the text must not depend on the layout)
+        base = [pid for pid, (t, o) in enumerate(programs) if t[0] == "F" and pid not in genomes]
+        for i in range(400 if quick else 5000):
+            pid = rng.choice(base)
+            t = programs[pid][0]
+            add(t, "relayout", layout(g_exact, rng, t, rng.choice(["packed", "spread"]), rng.choice(["all", "some"])))
+
+    # every program that has no genome yet gets a random layout
+    for pid, (t, origin) in enumerate(programs):
+        if pid not in genomes:
+            genomes[pid] = layout(g_exact, rng, t)
+        if os.environ.get("VERIF_C19_DEBUG") and unfold(g_exact, genomes[pid][0]) != t:
+            raise RuntimeError("layout does not unfold to the program: " + show(t))
+
+    phase("generate programs+layouts")
     # ---- run vita -----------------------------------------------------------------------------
     nin = 3 if quick else 6
     lines, inputs_of = [], {}
+    what_line = []          # ("prog", pid) | ("team", [pids]) | ("streamref", pid) | ("stream", pid, ops)
+    p_extra = 0.0 if replay else (0.03 if quick else 0.02)
     for pid, (t, origin) in enumerate(programs):
         ins = input_vectors(rng, nin)
         inputs_of[pid] = ins
-        lines.append(harness_line(syms, t, ins))
-    cpp, deaths = C.run_lines(exe, lines)
+        lines.append(harness_line(syms, genomes[pid][0], ins))
+        what_line.append(("prog", pid))
+        if (rng.chance(p_extra) and pid >= 1) or (forced_team and pid == len(programs) - 1):
+            k = forced_team or rng.between(1, min(pid + 1, 6))
+            lines.append("team %d" % k)
+            what_line.append(("team", list(range(pid - k + 1, pid + 1))))
+        if rng.chance(p_extra) or forced_stream:
+            lines.append("stream " + STREAM_REF)
+            what_line.append(("streamref", pid))
+            for _ in range(1 if forced_stream else 3):
+                ops = forced_stream or stream_ops(rng)
+                lines.append("stream " + " ".join(ops))
+                what_line.append(("stream", pid, ops))
+    allans, deaths0 = C.run_lines(exe, lines)
+    cpp = [None] * len(programs)
+    extra_ans = []
+    prog_line = {}
+    line_of_pid = {}
+    for i, (wl, ans) in enumerate(zip(what_line, allans)):
+        if wl[0] == "prog":
+            cpp[wl[1]] = ans
+            line_of_pid[wl[1]] = i
+        else:
+            extra_ans.append((i, wl, ans))
+    for i, wl in enumerate(what_line):
+        if wl[0] == "prog":
+            prog_line[i] = wl[1]
+    deaths = [(prog_line[idx], rc_, se_) for idx, rc_, se_ in deaths0 if idx in prog_line]
+    for idx, rc_, se_ in deaths0:
+        if idx not in prog_line:
+            broken.append("harness died (rc=%d) on `%s`: %s" % (rc_, lines[idx][:80], se_[-600:]))
+    dead_lines = sorted(idx for idx, _, _ in deaths0)
+
+    def replay_of(pid, **extra):
+        G, mode, share = genomes[pid]
+        o = {"tree": list_tree(programs[pid][0]), "genome": G.to_json(), "layout": mode, "share": share}
+        o.update(extra)
+        return o
+
     for idx, rc_, se_ in deaths:
         t = programs[idx][0]
         chk.violation("harness died (rc=%d) while printing/evaluating %s\n%s" % (rc_, show(t), se_[-1200:]),
-                      {"tree": list_tree(t)}, tags={"kind": "crash", "strings": str_class(t)})
+                      replay_of(idx), tags={"kind": "crash", "strings": str_class(t)})
 
     texts, values = {}, {}
     for pid, ans in enumerate(cpp):
@@ -807,29 +1241,190 @@ def run(chk, replay=None):
                 broken.append("harness rejected a generated program: %s" % show(programs[pid][0]))
             continue
         parts = ans.split(" ; ")
-        texts[pid] = [unhx(h).decode("latin1") for h in parts[0].split()]
+        head = parts[0].split()
+        texts[pid] = [unhx(h).decode("latin1") for h in head[:4]]
         values[pid] = parts[1:]
+        if head[4:] != ["valid=1"]:
+            broken.append("i_mep::is_valid() rejects a generated genome: %s" % json.dumps(genomes[pid][0].to_json()))
 
+    phase("harness (vita)")
+    # ---- the oracles and the model run side by side -------------------------------------------------
+    # clang's parser (C and C++): actual vs fully parenthesised
+    def clang_job(lang, f):
+        A, B = {}, {}
+        # programs with unescaped quotes etc. go to their own translation unit (error cascades)
+        for part, ids in (("n", [p for p in sorted(texts) if str_class(programs[p][0]) == "none"]),
+                          ("s", [p for p in sorted(texts) if str_class(programs[p][0]) != "none"])):
+            if not ids:
+                continue
+            A.update(clang_trees("ast_%s_%s_a" % (lang, part), lang,
+                                 [(p, result_dom(syms, programs[p][0]), texts[p][f]) for p in ids]))
+            B.update(clang_trees("ast_%s_%s_b" % (lang, part), lang,
+                                 [(p, result_dom(syms, programs[p][0]), oracle_text(syms, programs[p][0], f, True))
+                                  for p in ids]))
+        return lang, f, A, B
+
+    # gcc: compile + run the C text
+    def sife_on_strings(t):
+        return t[0] == "F" and ((t[1] == "str::ife" and t[2][0] == "S") or any(sife_on_strings(k) for k in t[3]))
+
+    exact_ids = []
+    for p in sorted(texts):
+        if not prints_exactly(programs[p][0]):
+            chk.count("value_check_skipped_constants_do_not_print_exactly")
+        else:
+            if sife_on_strings(programs[p][0]):
+                chk.count("value_check_programs_with_sife_on_strings")
+            exact_ids.append(p)
+    batches = [exact_ids[i:i + 400] for i in range(0, len(exact_ids), 400)]
+
+    def gcc_job(bi):
+        b = batches[bi]
+        return compile_and_run("run_%d" % bi, [(p, result_dom(syms, programs[p][0]), texts[p][0]) for p in b], inputs_of)
+
+    ex = cf.ThreadPoolExecutor(6)
     # ---- model (driver) ------------------------------------------------------------------------
-    verdict = {}
+    dl, keys, dj = [], [], []
     if drv_ok:
-        dl, keys = [], []
         for pid in texts:
-            tt = driver_tree(programs[pid][0], fidx, tidx)
+            tt = driver_genome(g_exact, genomes[pid][0], fidx, tidx) + " " + driver_tree(programs[pid][0], fidx, tidx)
             for f in range(4):
-                dl.append("chk %d %s %s" % (f, hx(texts[pid][f]), tt))
+                dl.append("gchk %d %s %s" % (f, hx(texts[pid][f]), tt))
                 keys.append((pid, f))
-        ans = C.run_driver("c19_driver", dl)
-        for k, a in zip(keys, ans):
-            verdict[k] = a
+        step = max(1, (len(dl) + 3) // 4)
+        dj = [ex.submit(C.run_driver, "c19_driver", dl[i:i + step]) for i in range(0, len(dl), step)]
+    cj = [ex.submit(clang_job, "c", 0), ex.submit(clang_job, "cpp", 1)]
+    gj = [ex.submit(gcc_job, i) for i in range(len(batches))]
+    phase("submit oracles+model")
+    # ---- teams and stream histories (format selection) -------------------------------------------------
+    fails = []       # (size, what, replay, tags)
+    doc_kind = {"c": ("lang", 0), "cpp": ("lang", 1), "mql": ("lang", 2), "py": ("lang", 3)}
+    for k in STREAM_KINDS:
+        doc_kind[k] = ("fn", k)
+    enum_kind = {}
+    for name, v in (export["print_format_t"] if export else []):
+        nm = name[:-2] if name.endswith("_f") else name
+        if nm.endswith("_language") and nm[:-9] in ("c", "cpp", "mql", "python"):
+            enum_kind[v] = ("lang", ["c", "cpp", "mql", "python"].index(nm[:-9]))
+        elif nm.replace("_", "") in STREAM_KINDS:
+            enum_kind[v] = ("fn", nm.replace("_", ""))
+    refs, dreq, dkey = {}, [], []
+    for li, wl, ans in extra_ans:
+        if ans.startswith(("died", "skipped")):
+            continue
+        if wl[0] == "team":
+            pids = wl[1]
+            if any(pp not in texts for pp in pids) or any(line_of_pid[pids[0]] <= d <= li for d in dead_lines):
+                chk.count("team_exports_skipped_after_a_harness_restart")
+                continue
+            if ans == "bad-op":
+                broken.append("harness rejected `team %d`" % len(pids))
+                continue
+            got = [unhx(h).decode("latin1") for h in ans.split()]
+            chk.count("team_size:%d" % len(pids))
+            for f in range(4):
+                want = "".join(texts[pp][f] + "\n" for pp in pids)
+                chk.count("team_exports_checked")
+                if got[f] != want:
+                    big = sum(node_count(programs[pp][0]) for pp in pids)
+                    tags = {"kind": "team-text", "fmt": FMT[f], "origin": "team",
+                            "strings": "+".join(sorted({str_class(programs[pp][0]) for pp in pids}))}
+                    fails.append((big, "[%s/team-text] a team of %d members is not printed as its members' texts, each "
+                                  "followed by a newline\n  printed: %r\n  expected: %r" % (FMT[f], len(pids), got[f][:300], want[:300]),
+                                  {"team_members": [replay_of(pp) for pp in pids], "tree": list_tree(programs[pids[-1]][0]),
+                                   "format": FMT[f], "kind": "team-text", "printed": got[f]}, tags))
+                if drv_ok:
+                    dreq.append("team %d %s %d %s" % (f, hx(got[f]), len(pids), " ".join(hx(texts[pp][f]) for pp in pids)))
+                    dkey.append(("team", pids, f))
+        elif wl[0] == "streamref":
+            outs = [o.split(":") for o in ans.split()]
+            if wl[1] in texts and len(outs) == 10:
+                refs[wl[1]] = {(STREAM_KINDS[j % 5], j // 5): unhx(o[2]).decode("latin1") for j, o in enumerate(outs)}
+        elif wl[0] == "stream":
+            pid, ops = wl[1], wl[2]
+            if pid not in texts or pid not in refs or ans == "bad-op":
+                continue
+            outs = [] if ans == "-" else [o.split(":") for o in ans.split()]
+            cur, lf, exp = ("fn", "list"), 0, []
+            for op in ops:
+                if op == "print":
+                    exp.append((cur, lf))
+                elif op == "fresh":
+                    cur, lf = ("fn", "list"), 0
+                elif op in ("long", "short"):
+                    lf = 1 if op == "long" else 0
+                elif op.startswith("pf"):
+                    cur = enum_kind.get(int(op[2:]), ("fn", "?"))
+                else:
+                    cur = doc_kind[op]
+            chk.count("stream_histories_checked")
+            if len(exp) != len(outs):
+                broken.append("harness printed %d times for the history %s" % (len(outs), " ".join(ops)))
+                continue
+            for j, ((kind, l), (flag, lfs, hexs)) in enumerate(zip(exp, outs)):
+                text = unhx(hexs).decode("latin1")
+                want = texts[pid][kind[1]] if kind[0] == "lang" else refs[pid].get((kind[1], l))
+                chk.count("stream_prints_checked:" + (FMT[kind[1]] if kind[0] == "lang" else "other"))
+                if want is None or text != want or int(lfs) != l:
+                    f = kind[1] if kind[0] == "lang" else 0
+                    t = programs[pid][0]
+                    tags = {"kind": "format-selection", "fmt": FMT[f], "origin": programs[pid][1], "strings": str_class(t)}
+                    fails.append((node_count(t), "[format-selection] after the stream history `%s` print #%d must be the %s "
+                                  "rendering (long form %d)\n  program: %s\n  printed: %r\n  expected: %r" %
+                                  (" ".join(ops), j + 1, FMT[kind[1]] if kind[0] == "lang" else kind[1], l, show(t),
+                                   text[:300], (want or "")[:300]),
+                                  replay_of(pid, stream_ops=ops, kind="format-selection", printed=text), tags))
+                    break
+            if drv_ok:
+                dreq.append("stream " + " ".join(ops))
+                dkey.append(("stream", ops, [(o[0], o[1]) for o in outs], exp))
+    if dreq:
+        for key, a in zip(dkey, C.run_driver("c19_driver", dreq)):
+            if key[0] == "team":
+                if a != "team=1 lines=1" and not (a == "team=1 lines=0" and
+                                                  any("\n" in texts[pp][key[2]] for pp in key[1])):
+                    broken.append("Lean model of operator<<(team) disagrees with the code (%s) on a team of %d [%s]"
+                                  % (a, len(key[1]), FMT[key[2]]))
+            else:
+                want = " ".join("%s:%s:%s" % (fl, lfs, ("L%d" % k[1]) if k[0] == "lang" else
+                                             "F" + {"inline": "in_line"}.get(k[1], k[1]))
+                                for (fl, lfs), (k, l) in zip(key[2], key[3])) or "-"
+                if a != want:
+                    broken.append("Lean model of the stream state / operator<< switch disagrees with the code on the "
+                                  "history `%s`: model %s, code %s" % (" ".join(key[1]), a, want))
+        chk.count("stream_and_team_requests_to_the_model", len(dreq))
 
     # ---- pair matrix / distribution ---------------------------------------------------------------
     pairs = {}
+    seen_triples = set()
     for pid in texts:
         t, origin = programs[pid]
         chk.count("origin:" + origin)
-        chk.count("depth:%d" % min(depth(t), 8))
+        dp = depth(t)
+        chk.count("depth:%s" % (dp if dp < 8 else "8-15" if dp < 16 else "16-31" if dp < 32 else "32+"))
         chk.count("root_domain:" + result_dom(syms, t))
+        G, mode, share = genomes[pid]
+        st = genome_stats(g_exact, G)
+        chk.count("layout:" + mode)
+        chk.count("genome_categories:%d" % len(G.doms))
+        chk.count("genome_rows:%s" % (G.n if G.n < 8 else "8-15" if G.n < 16 else "16-31" if G.n < 32 else "32+"))
+        if st["shared_rows"]:
+            chk.count("programs_with_several_active_genes_in_one_row")
+            chk.count("active_genes_in_one_row_max:%d" % st["max_in_row"])
+        if st["shared_genes"]:
+            chk.count("programs_with_a_gene_referenced_from_several_places")
+            chk.count("references_to_one_gene_max:%s" % (st["max_refs"] if st["max_refs"] < 5 else "5+"))
+        if st["same_gene_twice_in_one_parent"]:
+            chk.count("programs_with_one_gene_in_two_argument_positions_of_a_parent")
+        if st["active"] < G.n * len(G.doms):
+            chk.count("programs_with_inactive_genes")
+
+        def walk3(n):
+            if n[0] == "F":
+                for i, k in enumerate(n[3]):
+                    seen_triples.add((n[1], n[2][0] + n[2][1], i, k[1] if k[0] == "F" else term_kind_of(k)))
+                    walk3(k)
+        walk3(t)
 
         def walkp(n):
             if n[0] == "F":
@@ -850,23 +1445,45 @@ def run(chk, replay=None):
     chk.cov["pair_matrix"] = {"children": children,
                               "rows": {p: [pairs[p].get(c, 0) for c in children] for p in sorted(pairs)}}
     chk.cov["pair_matrix_cells_covered"] = sum(1 for p in pairs.values() for c in p.values() if c)
+    # (parent symbol [category instantiation], argument position, child symbol / terminal kind)
+    missing = sorted(possible_triples - seen_triples)
+    chk.cov["triples"] = {"type_compatible": len(possible_triples),
+                          "covered": len(possible_triples & seen_triples),
+                          "covered_symbol_level": len({(a, c, d) for a, b, c, d in seen_triples}),
+                          "not_covered": ["%s[%s] arg %d <- %s" % m for m in missing[:50]]}
+    if missing and not replay:
+        broken.append("generator: %d type-compatible (parent, position, child) triples were not exercised, e.g. %r"
+                      % (len(missing), missing[0]))
 
+    phase("teams+streams+stats")
+    verdict = {}
+    ans = [a for j in dj for a in j.result()]
+    for k, a in zip(keys, ans):
+        verdict[k] = a
+    phase("driver (Lean model, waited)")
     # ---- per program / format checks ---------------------------------------------------------------
-    fails = []       # (size, what, replay, tags)
 
     def fail(pid, f, kind, detail):
         t = programs[pid][0]
         tags = {"kind": kind, "fmt": FMT[f], "strings": str_class(t), "origin": programs[pid][1]}
-        what = "[%s/%s] %s\n  program: %s\n  printed: %s" % (FMT[f], kind, detail, show(t), texts[pid][f][:400])
-        fails.append((node_count(t), what, {"tree": list_tree(t), "format": FMT[f], "kind": kind,
-                                             "printed": texts[pid][f], "detail": detail,
-                                             "inputs": inputs_of[pid]}, tags))
+        what = "[%s/%s] %s\n  program: %s\n  printed: %s\n  genome (active genes, %d rows x %d categories, %s/%s): %s" % (
+            FMT[f], kind, detail, show(t), texts[pid][f][:400], genomes[pid][0].n, len(genomes[pid][0].doms),
+            genomes[pid][1], genomes[pid][2], show_genome(g_exact, genomes[pid][0])[:600])
+        tags["layout"] = genomes[pid][1]
+        # exact attribution helpers for the known findings on string constants: the printed text IS the
+        # simultaneous substitution (so only a terminal's own text can be wrong) / IS what the sequential
+        # replace_all loop produces (so only a marker inside a constant can be the cause)
+        tags["subst"] = "1" if texts[pid][f] == oracle_text(syms, t, f, False) else "0"
+        tags["seqsubst"] = "1" if texts[pid][f] == oracle_text_seq(syms, t, f) else "0"
+        fails.append((node_count(t), what, replay_of(pid, format=FMT[f], kind=kind, printed=texts[pid][f],
+                                                     detail=detail, inputs=inputs_of[pid]), tags))
 
     ndis_model = 0
+    canon_genome = {pid: json.dumps(genomes[pid][0].to_json()) for pid in texts}
     for pid in texts:
         t = programs[pid][0]
         for f in range(4):
-            chk.seen((list_tree(t), f), nontrivial=t[0] == "F")
+            chk.seen((canon_genome[pid], f), nontrivial=t[0] == "F")
             want = oracle_text(syms, t, f, False)
             if texts[pid][f] != want:
                 fail(pid, f, "text-vs-substitution",
@@ -878,6 +1495,16 @@ def run(chk, replay=None):
             if not flags:
                 broken.append("driver answered %r" % v)
                 continue
+            if flags.get("unf") != "1":
+                broken.append("the Lean model unfolds the genome of %s into a different program than the generator"
+                              % show(t))
+            if flags.get("exact") != ("1" if nums_exact(t) else "0"):
+                broken.append("the model's class `constants print exactly` (exact6 / intExact) differs from the "
+                              "exact rational test (v * 10^6 is a whole number) on %s" % show(t))
+            elif f == 0:
+                chk.count("constants_print_exactly:" + flags.get("exact", "?"))
+            if flags.get("wf") != "1":
+                broken.append("wfRows (model of i_mep::is_valid) rejects a genome that is_valid() accepts: %s" % show(t))
             if flags["render"] != "1":
                 ndis_model += 1
                 if texts[pid][f] == want:
@@ -904,67 +1531,39 @@ def run(chk, replay=None):
                      "sequential replace_all differs from simultaneous substitution")
     chk.cov["model_vs_code_text_disagreements"] = ndis_model
 
+    phase("per-program flags")
     # Python's own parser
     for pid in texts:
         t = programs[pid][0]
         a = py_tree(texts[pid][3].strip())     # blanks around the whole expression are harmless
         b = py_tree(oracle_text(syms, t, 3, True))
         chk.count("python_ast_checked")
+        if b.startswith("error") and any(w in b for w in ("too many nested parentheses", "RecursionError", "MemoryError",
+                                                            "too complex", "parser stack overflow")):
+            chk.count("python_ast_skipped_nesting_limit_of_the_oracle")      # a limit of python3's parser, not of vita
+            continue
         if a.startswith("error"):
             fail(pid, 3, "python-syntax", "python3 ast.parse rejects the text: " + a)
         elif a != b:
             fail(pid, 3, "python-ast", "python3's parse differs from the parse of the fully parenthesised substitution")
 
-    # clang's parser (C and C++): actual vs fully parenthesised
-    def clang_job(lang, f):
-        A, B = {}, {}
-        # programs with unescaped quotes etc. go to their own translation unit (error cascades)
-        for part, ids in (("n", [p for p in sorted(texts) if str_class(programs[p][0]) == "none"]),
-                          ("s", [p for p in sorted(texts) if str_class(programs[p][0]) != "none"])):
-            if not ids:
-                continue
-            A.update(clang_trees("ast_%s_%s_a" % (lang, part), lang,
-                                 [(p, result_dom(syms, programs[p][0]), texts[p][f]) for p in ids]))
-            B.update(clang_trees("ast_%s_%s_b" % (lang, part), lang,
-                                 [(p, result_dom(syms, programs[p][0]), oracle_text(syms, programs[p][0], f, True))
-                                  for p in ids]))
-        return lang, f, A, B
+    phase("python ast")
+    clang_res, gcc_res = [], []
+    for j in cj:
+        try:
+            clang_res.append(j.result())
+        except OracleTimeout as e:
+            chk.count("oracle_batches_skipped_timeout(clang)")
+            chk.notes.append("a clang AST batch timed out twice (overloaded machine): skipped, no verdict from it")
+    for j in gj:
+        try:
+            gcc_res.append(j.result())
+        except OracleTimeout as e:
+            chk.count("oracle_batches_skipped_timeout(gcc)")
+            chk.notes.append("a gcc batch timed out twice (overloaded machine): skipped, no verdict from it")
+    ex.shutdown()
 
-    # gcc: compile + run the C text
-    def sife_on_strings(t):
-        return t[0] == "F" and ((t[1] == "str::ife" and t[2][0] == "S") or any(sife_on_strings(k) for k in t[3]))
-
-    exact_ids = []
-    for p in sorted(texts):
-        if not prints_exactly(programs[p][0]):
-            chk.count("value_check_skipped_constants_do_not_print_exactly")
-        elif sife_on_strings(programs[p][0]) and programs[p][1] != "sife-strings":
-            chk.count("value_check_skipped_sife_on_strings")
-        else:
-            exact_ids.append(p)
-    batches = [exact_ids[i:i + 400] for i in range(0, len(exact_ids), 400)]
-
-    def gcc_job(bi):
-        b = batches[bi]
-        return compile_and_run("run_%d" % bi, [(p, result_dom(syms, programs[p][0]), texts[p][0]) for p in b], inputs_of)
-
-    with cf.ThreadPoolExecutor(6) as ex:
-        cj = [ex.submit(clang_job, "c", 0), ex.submit(clang_job, "cpp", 1)]
-        gj = [ex.submit(gcc_job, i) for i in range(len(batches))]
-        clang_res, gcc_res = [], []
-        for j in cj:
-            try:
-                clang_res.append(j.result())
-            except OracleTimeout as e:
-                chk.count("oracle_batches_skipped_timeout(clang)")
-                chk.notes.append("a clang AST batch timed out twice (overloaded machine): skipped, no verdict from it")
-        for j in gj:
-            try:
-                gcc_res.append(j.result())
-            except OracleTimeout as e:
-                chk.count("oracle_batches_skipped_timeout(gcc)")
-                chk.notes.append("a gcc batch timed out twice (overloaded machine): skipped, no verdict from it")
-
+    phase("clang+gcc oracles")
     for lang, f, A, B in clang_res:
         for pid in texts:
             a, b = A.get(pid), B.get(pid)
@@ -1014,25 +1613,51 @@ def run(chk, replay=None):
                     mism.append((pid, j, g, w))
                     break
 
-    # attribute mismatches of programs with FSIGMOID: recompile the same text with the sigmoid
-    # sub-expressions replaced by the interpreter's own formula; if THAT agrees bit for bit on every
-    # input, the only cause is the formula difference (known finding), however much a later
-    # discontinuous primitive (fmod, floor, a comparison) amplified the last-bit difference
-    sig_ids = sorted({pid for pid, _, _, _ in mism if "real::sigmoid" in symbols_of(programs[pid][0])
-                      and texts[pid][0] == oracle_text(syms, programs[pid][0], 0, False)})
-    sig_only = set()
-    if sig_ids:
+    # attribute a mismatch to a known finding only by an EXACT test, never by a tolerance: the same text
+    # is recompiled with the suspected template replaced
+    #   sigmoid-formula : every FSIGMOID computed by the interpreter's own formula (helper vc19_sig)
+    #   sife-address    : every SIFE over strings comparing the TEXT (strcmp) instead of the addresses
+    # and only if that variant agrees bit for bit with vita::run on every input is the case tagged
+    # `value-<cause>`; however much a later discontinuous primitive amplified the difference.  Any
+    # other mismatch stays an unmatched `value` violation.
+    CAUSES = {"sigmoid-formula": ("real::sigmoid", "vc19_sig(%%1%%)"),
+              "sife-address": ("str::ife", lambda n: "(strcmp(%%1%%,%%2%%)==0 ? %%3%% : %%4%%)" if n[2][0] == "S" else None)}
+
+    def applicable(t):
+        out = []
+        if "real::sigmoid" in symbols_of(t):
+            out.append("sigmoid-formula")
+        if sife_on_strings(t):
+            out.append("sife-address")
+        return out
+
+    def same_values(p, got):
+        return all(w in ("void", "exc") or g == w or
+                   (g.startswith("d:") and w.startswith("d:") and "real::max" in symbols_of(programs[p][0])
+                    and bitsd(int(g[2:])) == 0.0 and bitsd(int(w[2:])) == 0.0)
+                   for g, w in zip(got, values[p]))
+
+    variants, vin = [], {}          # (variant id, pid, causes)
+    for pid in sorted({pid for pid, _, _, _ in mism}):
+        t = programs[pid][0]
+        if texts[pid][0] != oracle_text(syms, t, 0, False):
+            continue
+        cs = applicable(t)
+        subsets = [[c] for c in cs] + ([cs] if len(cs) > 1 else [])
+        for sub in subsets:
+            vid = len(variants)
+            variants.append((vid, pid, sub))
+            vin[vid] = inputs_of[pid]
+    cause_of = {}
+    if variants:
         try:
-            v2, e2 = compile_and_run("run_sig", [(p, result_dom(syms, programs[p][0]),
-                                                  oracle_text(syms, programs[p][0], 0, False,
-                                                              override={"real::sigmoid": "vc19_sig(%%1%%)"}))
-                                                 for p in sig_ids], inputs_of)
-            for p in sig_ids:
-                if p in v2 and all(w in ("void", "exc") or g == w or
-                                   (g.startswith("d:") and w.startswith("d:") and "real::max" in symbols_of(programs[p][0])
-                                    and bitsd(int(g[2:])) == 0.0 and bitsd(int(w[2:])) == 0.0)
-                                   for g, w in zip(v2[p], values[p])):
-                    sig_only.add(p)
+            v2, e2 = compile_and_run("run_attr", [(vid, result_dom(syms, programs[p][0]),
+                                                   oracle_text(syms, programs[p][0], 0, False,
+                                                               override={CAUSES[c][0]: CAUSES[c][1] for c in sub}))
+                                                  for vid, p, sub in variants], vin)
+            for vid, p, sub in variants:
+                if p not in cause_of and vid in v2 and same_values(p, v2[vid]):
+                    cause_of[p] = "+".join(sub)
         except OracleTimeout:
             chk.count("oracle_batches_skipped_timeout(gcc)")
     for pid, j, g, w in mism:
@@ -1041,16 +1666,20 @@ def run(chk, replay=None):
         if g.startswith("d:") and w.startswith("d:"):
             a, b = bitsd(int(g[2:])), bitsd(int(w[2:]))
             det += " (%r vs %r)" % (a, b)
-        if pid in sig_only:
-            kind = "value-sigmoid-formula"
-            det += "; with every FSIGMOID sub-expression computed by the interpreter's formula " \
-                   "(x<0: exp(x)/(1+exp(x))) the same text agrees bit for bit on every input"
+        if pid in cause_of:
+            kind = "value-" + cause_of[pid]
+            det += "; recompiled with " + " and ".join(
+                {"sigmoid-formula": "every FSIGMOID computed by the interpreter's formula (x<0: exp(x)/(1+exp(x)))",
+                 "sife-address": "every SIFE over strings comparing the text (strcmp) instead of the addresses"}[c]
+                for c in cause_of[pid].split("+")) + " the same text agrees bit for bit on every input"
         fail(pid, 0, kind, det)
     chk.count("values_compared", nval)
     chk.count("values_skipped_interpreter_void", nvoid)
     chk.count("programs_compiled_with_gcc", sum(len(v) for v, _ in gcc_res))
     chk.cov["programs"] = len(texts)
 
+    phase("compare+attribute")
+    chk.cov["phase_seconds"] = phases
     # ---- verdict ------------------------------------------------------------------------------------
     fails.sort(key=lambda x: x[0])
     if os.environ.get("VERIF_C19_DEBUG"):
@@ -1063,9 +1692,11 @@ def run(chk, replay=None):
         tags = dict(tags)
         tags["symbols"] = ",".join(sorted(set(symbols_of(tuple_tree(rep["tree"])))))
         groups.setdefault((tags["kind"], tags["fmt"]), []).append((what, rep, tags))
+    prio = ["text-vs-substitution", "format-selection", "team-text", "sequential-replace", "parse",
+            "terminal-not-an-operand", "python-syntax", "python-ast", "clang-syntax", "clang-ast", "gcc-compile", "value"]
     rank = 0
     while any(len(g) > rank for g in groups.values()) and rank < 40:
-        for key in sorted(groups):
+        for key in sorted(groups, key=lambda k: (prio.index(k[0]) if k[0] in prio else len(prio), k[1])):
             if len(groups[key]) > rank:
                 what, rep, tags = groups[key][rank]
                 chk.violation(what, rep, tags=tags)
@@ -1083,10 +1714,17 @@ def run(chk, replay=None):
     return chk.finish(
         level="proof",
         checker_cmd="lake build Vita.C19.Props && lake env lean <#print axioms for every theorem>",
-        rule="programs: every type-compatible (parent, argument position, child symbol / terminal kind) triple at the root "
-             "and below a random grandparent, random typed trees, nested conditionals, string constants with special "
-             "characters; x 4 formats; distinct = distinct (program, format) with at least one function node",
-        trusted=["Lean 4.33 kernel", "tools/translate_templates.py + cxx2lean.py (clang-14 JSON AST -> template table)",
+        rule="genomes (full matrix rows x categories, best locus [0,0], inactive loci = random valid genes, equal "
+             "symbols shared): every type-compatible (parent, argument position, child symbol / terminal kind) triple at "
+             "the root and below a random grandparent, random typed trees, nested conditionals, string constants with "
+             "special characters, each laid out chain / packed (several active genes per row) / spread with sub-expression "
+             "sharing none / all / some; random genomes filled as vita fills them; long chains; re-layouts of the same "
+             "program; x 4 formats; teams of the last k individuals; random stream histories; distinct = distinct "
+             "(genome, format) with at least one function node",
+        trusted=["Lean 4.33 kernel", "tools/translate_templates.py + cxx2lean.py (clang-14 JSON AST -> template table, "
+                 "print-format enumerators, manipulator stores, operator<< switch, team loop)",
+                 "hand model of language() on genomes (Vita.C19.Genome.langG), tied by text equality on every generated genome",
+                 "std::ios_base::iword semantics (fresh stream = 0, independent streams)",
                  "the C / Python expression grammars as encoded by Vita.C19.Syntax (`ok`): validated against clang-14 "
                  "and python3 parsers on every generated case, not proved",
                  "gcc 12 / glibc libm for the compile-and-run oracle", "harness/c19_lang.cc"])
@@ -1117,6 +1755,25 @@ def prints_exactly(t):
             cl = set()
             sclass(tm[2], cl)
             if cl:
+                return False
+    return True
+
+
+def nums_exact(t):
+    """the class "constants print exactly" for the numeric terminals, as Vita.C19.exactT defines it:
+       std::to_string(double) classes: the 6 printed decimals ARE the value (a whole number of millionths);
+       std::to_string(int) classes: the value is a whole number that fits an int.  (`prints_exactly` below is
+       the larger round-trip class used for the compile-and-run oracle: the decimal text converts back to the
+       same double, e.g. 0.1 -> `0.100000` -> 0.1.)"""
+    for tm in terminals_of(t):
+        k = tm[1]
+        if k in ("real::real", "integer::number", "const:d"):
+            v = bitsd(term_bits(tm))
+            if not math.isfinite(v) or (Fraction(v) * 1000000).denominator != 1:
+                return False
+        elif k in ("real::integer", "const:i"):
+            v = bitsd(term_bits(tm))
+            if not math.isfinite(v) or v != int(v) or abs(v) > 2147483647:
                 return False
     return True
 
